@@ -1,11 +1,11 @@
 (* driver.ml -- C06 models, one command per line:
-     pml <10 variant bits> <iqcap> <eqcap> <fuel> <tree>   raw TRACE_EXECUTION tokens of the PmlStep model | S:<sids> T:<vids> R:<status>
-     views <10 variant bits> <iqcap> <eqcap> <fuel> <tree> observable view of the PmlStep run || view of the Fast run
-     guards <10 variant bits> <tree>                       per transition (post-fix order): '-' (no event test) or the literals, hex, comma separated
+     pml <11 variant bits> <iqcap> <eqcap> <fuel> <tree>   raw TRACE_EXECUTION tokens of the PmlStep model | S:<sids> T:<vids> R:<status>
+     views <11 variant bits> <iqcap> <eqcap> <fuel> <tree> observable view of the PmlStep run || view of the Fast run
+     guards <11 variant bits> <tree>                       per transition (post-fix order): '-' (no event test) or the literals, hex, comma separated
      guardspec <tree>                                     per transition: '-' (eventless) or the chart's event names name_match_spec matches
      resolvable <hex attr>                                1 if the attribute is "*" or all its descriptors satisfy Trie.resolvable_desc
      trie <star bit> <hex word>,... <hex attr> <hex name> resolved literals | match by the resolution | name_match_spec
-   variant bits: in_reads_root initial_break deep_unnegated hist_parent_test hist_or star_in_list_ignored hist_covered found_stale hist_inner_first cond_bare *)
+   variant bits: in_reads_root initial_break deep_unnegated hist_parent_test hist_or star_in_list_ignored hist_covered found_stale hist_inner_first cond_bare completion_guarded *)
 open Vmodel
 
 (*COMMON*)
@@ -97,7 +97,7 @@ let rec tree_of = function
 let bits s i = String.length s > i && s.[i] = '1'
 let variant_of (s : string) : pml_variant =
   { pv_in_reads_root = bits s 0; pv_initial_break = bits s 1; pv_deep_unnegated = bits s 2;
-    pv_hist_parent_test = bits s 3; pv_hist_or = bits s 4; pv_hist_covered = bits s 6; pv_hist_inner_first = bits s 8; pv_found_stale = bits s 7; pv_cond_bare = bits s 9; pv_trie = (bits s 5) }
+    pv_hist_parent_test = bits s 3; pv_hist_or = bits s 4; pv_hist_covered = bits s 6; pv_hist_inner_first = bits s 8; pv_found_stale = bits s 7; pv_cond_bare = bits s 9; pv_completion_guarded = bits s 10; pv_trie = (bits s 5) }
 
 let rec nat_mem (x : int) = function [] -> false | y :: r -> (int_of_nat y = x) || nat_mem x r
 let bitstr (n : int) (l : nat list) : string =
